@@ -1,5 +1,5 @@
 SPECIFICATION Spec
-CONSTANTS MaxLen = 3
+CONSTANTS MaxLen = 4
   Pool <- Pool4
   Starts <- StartsAll
   Xs = {1, 2}
